@@ -12,6 +12,9 @@ DEPS = ["TarsWire"]
 
 def prepare(ctx, idl_files=None):
     h, schema = codecgen.stage(ctx, idl_files=idl_files)
+    if "Vt.TupAttr" in schema["structs"]:
+        # the TUP attribute map, decoded by tup.UniAttribute (harness/cmd/codecdrive/tupattr.go), has the schema of Vt.TupAttr
+        schema["structs"]["tup.Attr"] = schema["structs"]["Vt.TupAttr"]
     exe = gobuild.build(ctx, "codecdrive")
     return exe, schema
 
